@@ -9,7 +9,7 @@ Decides (structural):
   R-RESTAMP    every row re-inserted by a table rebuild/refresh is stamped with next_ts in its sort column
   R-TSADVANCE  after merging staged writes the timestamp advances before control returns
 """
-from ..util import edge_relation, guards, fmt_atoms, field_writes
+from ..util import edge_relation, guards, fmt_atoms, field_writes, variant_is
 from . import rebuild_common as rc
 
 EXPLANATION = (
@@ -316,7 +316,7 @@ def check_restamp(chk, prog):
                 for b in g.live:
                     for sc in g.succ[b]:
                         r = edge_relation(g, b, sc)
-                        if r and "variant" in r and r["variant"] == ["1"] and any("sort_by" in e for e in r["place"][1] if not isinstance(e, str)):
+                        if r and variant_is(r, 1) and any("sort_by" in e for e in r["place"][1] if not isinstance(e, str)):
                             some_edges.append((b, sc))
                 dominated = False
                 for (b, sc) in some_edges:
